@@ -10,12 +10,17 @@ cases = json.load(open(os.path.join(HERE, "cases.json")))
 want = set(sys.argv[1:])
 env = dict(os.environ, GOFLAGS="-mod=mod", GOPROXY="off", GOSUMDB="off", GOTOOLCHAIN="local")
 missed = []
+# one snapshot of /repo for the whole run, so that work going on in /repo meanwhile cannot mix into the copies
+base = tempfile.mkdtemp(prefix="govc-selftest-base-")
+subprocess.check_call(["rsync", "-a", "--exclude", ".git", "/repo/", base + "/"])
+import atexit
+atexit.register(lambda: shutil.rmtree(base, ignore_errors=True))
 for c in cases:
     if want and c["prop"] not in want and c["id"] not in want:
         continue
     d = tempfile.mkdtemp(prefix="govc-selftest-")
     try:
-        subprocess.check_call(["rsync", "-a", "--exclude", ".git", "/repo/", d + "/"])
+        subprocess.check_call(["rsync", "-a", base + "/", d + "/"])
         p = os.path.join(d, c["file"])
         s = open(p).read()
         if c["old"] not in s:
